@@ -963,6 +963,8 @@ def closure_specs(text, specs):
         call = sp["call"]
         at = text.find(call)
         if at < 0:
+            if sp.get("optional"):
+                continue   # the call is gone: the function's own contract decides whether what replaced it is good enough
             raise SpliceError("R-CLOSPEC: call not found: " + call)
         m = mask(text)
         po = at + len(call) - 1
